@@ -24,6 +24,7 @@ class Spec:
         self.thorough_n = 4000
         self.keep = ("res",)           # which observations take part in the correspondence: res, tbl, img, crash
         self.oracle = True             # evaluate the map / crash oracle on the trace
+        self.aspects = ("map",)        # which oracles of the implementation trace belong to this property: map, paths, crash, dir, sizes
         self.witnesses = []            # regression scenarios of harness/cmd/witness
         self.nontrivial = None         # function(history_text, recs) -> bool
         self.rule = ""
@@ -67,6 +68,71 @@ CHECKS["C01"] = Spec(
          "non-trivial = >= 2 written keys share the first two digest bytes and a flush separates two writes; distinct = by history text",
 )
 
+_KEYS_RULE = ("histories from one PRNG (VERIF_SEED): 4-11 multihash keys over a 2-letter alphabet sharing bucket bits and leading bytes, "
+              "values of 0-11 bytes incl. nil/empty, bits in {8,9,12,16}, file limits in {1,40/60,100,300,2^30}, immutable 1 in 4; ")
+
+def _count_ops(text, kinds):
+    return sum(1 for l in text.split("\n") if l.split() and l.split()[0] in kinds)
+
+CHECKS["C02"] = Spec(
+    prop_file="C02.v",
+    weights=dict(put=34, get=12, has=3, size=3, remove=12, flush=10, reopen=9, igc=4, pgc=4, iter=1),
+    gen_kw=dict(sweep_p=0.6),
+    keep=("res", "tbl"),
+    aspects=("map", "paths"),
+    witnesses=["F8-close-writes-index-before-primary", "F17-close-vs-relocation"],
+    nontrivial=lambda t, r: _count_ops(t, ("reopen",)) >= 1 and _count_ops(t, ("put",)) >= 3 and _count_ops(t, ("remove", "pgc", "igc")) >= 1,
+    rule=_KEYS_RULE + "Close+reopen at random positions through the snapshot path, the rescan path (snapshot deleted) and with a truncated snapshot; "
+         "at every reopen the OTHER path is opened on a copy and bucket tables + every Get are compared; Close is called twice; "
+         "non-trivial = >= 1 reopen, >= 3 puts and >= 1 removal or GC cycle; distinct = by history text",
+)
+CHECKS["C04"] = Spec(
+    prop_file="C04.v",
+    weights=dict(put=34, get=10, has=2, size=2, remove=14, flush=12, igc=8, pgc=12, reopen=2, iter=1),
+    gen_kw=dict(sweep_p=0.7, pmax_choices=(1, 60, 100, 100, 300, 300), imax_choices=(1, 40, 100, 300)),
+    keep=("res", "tbl", "img"),
+    witnesses=["F3-relocate-two-records", "F4-freelist-entry-for-unflushed-block", "F5-freelist-entry-in-missing-file",
+               "F11-stale-record-relocated-after-crash", "F16-relocation-vs-writer"],
+    nontrivial=lambda t, r: _count_ops(t, ("pgc", "igc")) >= 2 and _count_ops(t, ("put",)) >= 4 and _count_ops(t, ("flush",)) >= 1,
+    rule=_KEYS_RULE + "index GC (both scan-free flags) and primary GC (low-use 10..94) at random positions incl. between a write and its flush, "
+         "small file limits so several non-current files exist; every key read back after most cycles; bucket table and byte images of all "
+         "files compared with the model after every cycle; non-trivial = >= 2 GC cycles, >= 4 puts, >= 1 flush; distinct = by history text",
+)
+CHECKS["C09"] = Spec(
+    prop_file="C09.v",
+    weights=dict(put=34, get=10, has=2, size=2, remove=12, flush=10, rebits=9, missize=3, reopen=2, igc=2, pgc=3),
+    gen_kw=dict(sweep_p=0.7, bits_choices=(8, 9, 12, 15, 16, 17)),
+    keep=("res", "tbl"),
+    aspects=("map", "sizes"),
+    nontrivial=lambda t, r: _count_ops(t, ("rebits",)) >= 1 and _count_ops(t, ("put",)) >= 3,
+    rule=_KEYS_RULE.replace("{8,9,12,16}", "{8,9,12,15,16,17}") + "Close + reopen with another bit size at random positions, opens with a different index / primary file-size "
+         "limit (must be refused with the specific error, then the original settings must work); non-trivial = >= 1 re-bucketing and >= 3 puts",
+)
+CHECKS["C13"] = Spec(
+    prop_file="C13.v",
+    weights=dict(put=40, get=4, remove=16, flush=12, atflush=4, pgc=9, pgcb=0, igc=2, reopen=4),
+    gen_kw=dict(pmax_choices=(1, 60, 100, 300, 1 << 30), imm_p=0.3),
+    variants=[(0.25, dict(weights=dict(put=40, get=4, remove=16, flush=14, pgc=6, pgcb=8, igc=1, reopen=3)))],
+    keep=("res", "img"),
+    aspects=("map", "dir"),
+    witnesses=["C13-freelist-exact", "F12b-writer-inside-commit-then-crash"],
+    nontrivial=lambda t, r: _count_ops(t, ("flush",)) >= 1 and any(((x.get("extra") or {}).get("blk_before") or "") != "" and (x.get("extra") or {}).get("blk_after") != (x.get("extra") or {}).get("blk_before") for x in r),
+    rule=_KEYS_RULE + "overwrites, identical re-puts, rejected immutable puts, removals of present and absent keys, flushes, primary GC (hand-over of the freelist file) "
+         "and reopen; the freelist file image is compared byte for byte with the model after every flush/GC, and on the real files: no duplicate entry, "
+         "no entry naming a current location; non-trivial = >= 1 flush and >= 1 operation that superseded a location",
+)
+CHECKS["C11"] = Spec(
+    prop_file="C11.v",
+    weights=dict(put=36, remove=18, flush=12, pgc=14, igc=10, get=4, reopen=2),
+    gen_kw=dict(pmax_choices=(1, 60, 100, 300), imax_choices=(1, 40, 100, 300), imm_p=0.0),
+    keep=("res", "img", "tbl"),
+    nontrivial=lambda t, r: _count_ops(t, ("pgc",)) >= 2 and _count_ops(t, ("igc",)) >= 1 and _count_ops(t, ("remove", "put")) >= 5,
+    rule=_KEYS_RULE + "small file limits; removals/overwrites then GC cycles; file images and tables compared with the model after each cycle; "
+         "every generated history ends with a drain phase (remove everything, flush, 3 primary + 2 index cycles) after which every non-current file must "
+         "be empty or unlinked and a further cycle must write nothing",
+    tail="drain",
+    extra_oracle=oracles.c11_drain,
+)
 
 # ------------------------------------------------------------------------------------------------ flow
 def project(term, keep):
@@ -120,10 +186,10 @@ def run_witnesses(names):
     return res
 
 
-def eval_oracle(hist_text, recs):
-    """Map oracle on one history's records. Returns first failure (index, description) or None."""
+def eval_oracle(hist_text, recs, aspects=("map",)):
+    """Oracles on one history's records. Returns first failure (index, description) or None."""
     imm = " imm=1" in hist_text.split("\n")[0]
-    o = oracles.MapOracle(imm)
+    o = oracles.MapOracle(imm, aspects)
     for r in recs:
         if r["i"] < 0:
             if r["res"] == "FAILED":
@@ -132,7 +198,19 @@ def eval_oracle(hist_text, recs):
         bad = o.expect(r)
         if bad:
             return (r["i"], bad)
+        d = (r.get("extra") or {}).get("dir")
+        if d and "dir" in aspects:
+            bad = oracles.dir_invariants(d, quiescent=(r["op"] == "flush" and r["res"] == "ROk" and (r.get("extra") or {}).get("pools_empty") is True and "crash_keep" not in (r.get("extra") or {})))
+            if bad:
+                return (r["i"], bad)
     return None
+
+
+def eval_all(spec, hist_text, recs):
+    bad = eval_oracle(hist_text, recs, getattr(spec, "aspects", ("map",)) if spec else ("map",))
+    if bad is None and getattr(spec, "extra_oracle", None):
+        bad = spec.extra_oracle(hist_text, recs)
+    return bad
 
 
 def shrink(hist_text, still_fails, budget=60):
@@ -161,7 +239,7 @@ def shrink(hist_text, still_fails, budget=60):
     return cfg + "\n" + "\n".join(ops) + "\n"
 
 
-def run_histories(texts, wd, keep):
+def run_histories(texts, wd, keep, spec=None):
     """Write, run on the implementation, replay on the model. Returns dict name -> (text, recs, oracle_failure, mismatch_index)."""
     paths = []
     for i, t in enumerate(texts):
@@ -178,7 +256,7 @@ def run_histories(texts, wd, keep):
     mm = dict(mism)
     out = {}
     for p, t in zip(paths, texts):
-        out[p] = (t, by[p], eval_oracle(t, by[p]), mm.get(p))
+        out[p] = (t, by[p], eval_all(spec, t, by[p]), mm.get(p))
     return out, coq_s
 
 
@@ -244,8 +322,17 @@ def run_check(prop, tier, seed, replay, t0):
         texts = [open(replay).read()]
         ncorpus, n = 0, 0
     for _ in range(n):
-        texts.append(gen.history(rng, spec.weights, **spec.gen_kw))
-    results, coq_s = run_histories(texts, wd, spec.keep)
+        w, kw = spec.weights, spec.gen_kw
+        for prob, alt in (getattr(spec, "variants", None) or []):
+            if rng.random() < prob:
+                w = alt.get("weights", w)
+                kw = dict(kw, **alt.get("gen_kw", {}))
+                break
+        t = gen.history(rng, w, **kw)
+        if getattr(spec, "tail", None) == "drain":
+            t = gen.add_drain(rng, t)
+        texts.append(t)
+    results, coq_s = run_histories(texts, wd, spec.keep, spec)
     opcount = collections.Counter()
     vlens = collections.Counter()
     nontriv = set()
@@ -264,14 +351,14 @@ def run_check(prop, tier, seed, replay, t0):
         w2 = os.path.join(wd, "shrink")
         shutil.rmtree(w2, ignore_errors=True)
         os.makedirs(w2)
-        r, _ = run_histories([text], w2, spec.keep)
+        r, _ = run_histories([text], w2, spec.keep, spec)
         (_, (_, _, of, m2)), = r.items()
         return of is not None or m2 is not None
     def fails_oracle(text):
         w2 = os.path.join(wd, "shrink")
         shutil.rmtree(w2, ignore_errors=True)
         os.makedirs(w2)
-        r, _ = run_histories([text], w2, ())
+        r, _ = run_histories([text], w2, (), spec)
         (_, (_, _, of, m2)), = r.items()
         return of is not None
     bad_oracle = [(p, v) for p, v in results.items() if v[2] is not None]
@@ -287,7 +374,7 @@ def run_check(prop, tier, seed, replay, t0):
         srch = random.Random(seed + 77)
         extra = [gen.history(srch, spec.weights, **spec.gen_kw) for _ in range(300 if tier == "quick" else 3000)]
         w3 = os.path.join(wd, "search"); os.makedirs(w3, exist_ok=True)
-        r3, _ = run_histories(extra, w3, ())
+        r3, _ = run_histories(extra, w3, (), spec)
         for p3, v3 in r3.items():
             if v3[2] is not None:
                 found = v3
